@@ -27,10 +27,12 @@ CONSTANTS Contribs,      \* set of contribution ids
           NComp,         \* [Contribs -> 1..k] number of components
           Kind,          \* [Contribs -> {"std", "noassign"}]
           Order,         \* [Contribs -> Nat] evaluation order (clouds 3, others 5)
-          MaxVer         \* bound on parameter changes
+          MaxVer,        \* bound on parameter changes
+          MaxLate        \* how many contributions may be added after build() (they are not re-sorted)
 
 VARIABLES ver,           \* current parameter version
           added,         \* insertion order chosen by the user (sequence of contribs)
+          nlate,         \* the last nlate of them were added after build()
           list,          \* model.contribution_list
           full,          \* list saved by the per-contribution operations
           buf,           \* buf[c] = [comp |-> 0 (none) | -1 (sum) | i, ver |-> v]  -- sigma_xsec
@@ -38,7 +40,7 @@ VARIABLES ver,           \* current parameter version
           ci, ki,        \* loop indices of the running operation
           reads,         \* what path_integral read during the running/last operation
           last           \* name of the last completed public operation
-vars == <<ver, added, list, full, buf, pc, ci, ki, reads, last>>
+vars == <<ver, added, nlate, list, full, buf, pc, ci, ki, reads, last>>
 
 None == 0
 Sum  == -1
@@ -51,15 +53,18 @@ InsertSorted(s, c) == IF s = <<>> THEN <<c>>
 RECURSIVE SortByOrder(_)
 SortByOrder(s) == IF s = <<>> THEN <<>> ELSE InsertSorted(SortByOrder(SubSeq(s, 1, Len(s) - 1)), s[Len(s)])
 
+\* build() sorts what has been added so far; later add_contribution() calls append
+ListOf(a, n) == SortByOrder(SubSeq(a, 1, Len(a) - n)) \o SubSeq(a, Len(a) - n + 1, Len(a))
 Init == /\ ver = 1
         /\ added \in Perms(Contribs)
-        /\ list = SortByOrder(added)
+        /\ nlate \in 0..MaxLate
+        /\ list = ListOf(added, nlate)
         /\ full = <<>>
         /\ buf = [c \in Contribs |-> [comp |-> None, ver |-> 0]]
         /\ pc = "idle" /\ ci = 0 /\ ki = 0
         /\ reads = {} /\ last = "build"
 
-Built == SortByOrder(added)
+Built == ListOf(added, nlate)
 
 \* ---- Contribution.prepare(c): loop over prepare_each, then sigma_xsec := sum
 Prepared(c) == [comp |-> Sum, ver |-> ver]
@@ -70,7 +75,7 @@ ReadAll(b, l) == {[c |-> l[i], comp |-> b[l[i]].comp, ver |-> b[l[i]].ver] : i \
 
 SetParam == /\ pc = "idle" /\ ver < MaxVer
             /\ ver' = ver + 1
-            /\ UNCHANGED <<added, list, full, buf, pc, ci, ki, reads, last>>
+            /\ UNCHANGED <<added, nlate, list, full, buf, pc, ci, ki, reads, last>>
 
 \* model(): atomic enough -- nothing else can interleave in a sequential library,
 \* but it is kept as prepare-all then read so that the reads are explicit
@@ -79,11 +84,11 @@ Model == /\ pc = "idle"
             IN  /\ buf' = b
                 /\ reads' = {[op |-> "model", want |-> Sum, at |-> ver, r |-> r] : r \in ReadAll(b, list)}
          /\ last' = "model"
-         /\ UNCHANGED <<ver, added, list, full, pc, ci, ki>>
+         /\ UNCHANGED <<ver, added, nlate, list, full, pc, ci, ki>>
 
 \* model_contrib(): start, one step per contribution, finish (restore)
 ContribStart == /\ pc = "idle" /\ pc' = "contrib" /\ full' = list /\ ci' = 1 /\ reads' = {}
-                /\ UNCHANGED <<ver, added, list, buf, ki, last>>
+                /\ UNCHANGED <<ver, added, nlate, list, buf, ki, last>>
 ContribStep == /\ pc = "contrib" /\ ci <= Len(full)
                /\ LET c == full[ci]
                       b == [buf EXCEPT ![c] = Prepared(c)]
@@ -91,14 +96,14 @@ ContribStep == /\ pc = "contrib" /\ ci <= Len(full)
                       /\ buf' = b
                       /\ reads' = reads \cup {[op |-> "contrib", want |-> Sum, at |-> ver, r |-> r] : r \in ReadAll(b, <<c>>)}
                /\ ci' = ci + 1
-               /\ UNCHANGED <<ver, added, full, pc, ki, last>>
+               /\ UNCHANGED <<ver, added, nlate, full, pc, ki, last>>
 ContribEnd == /\ pc = "contrib" /\ ci > Len(full)
               /\ list' = full /\ pc' = "idle" /\ last' = "contrib"
-              /\ UNCHANGED <<ver, added, full, buf, ci, ki, reads>>
+              /\ UNCHANGED <<ver, added, nlate, full, buf, ci, ki, reads>>
 
 \* model_full_contrib(): per contribution, per component
 FullStart == /\ pc = "idle" /\ pc' = "fullc" /\ full' = list /\ ci' = 1 /\ ki' = 1 /\ reads' = {}
-             /\ UNCHANGED <<ver, added, list, buf, last>>
+             /\ UNCHANGED <<ver, added, nlate, list, buf, last>>
 FullStep == /\ pc = "fullc" /\ ci <= Len(full)
             /\ LET c == full[ci]
                    b == [buf EXCEPT ![c] = Yielded(c, ki)]
@@ -107,10 +112,10 @@ FullStep == /\ pc = "fullc" /\ ci <= Len(full)
                    /\ reads' = reads \cup {[op |-> "fullc", want |-> ki, at |-> ver, r |-> r] : r \in ReadAll(b, <<c>>)}
                    /\ IF ki < NComp[c] THEN ki' = ki + 1 /\ ci' = ci
                       ELSE ki' = 1 /\ ci' = ci + 1
-            /\ UNCHANGED <<ver, added, full, pc, last>>
+            /\ UNCHANGED <<ver, added, nlate, full, pc, last>>
 FullEnd == /\ pc = "fullc" /\ ci > Len(full)
            /\ list' = full /\ pc' = "idle" /\ last' = "fullc"
-           /\ UNCHANGED <<ver, added, full, buf, ci, ki, reads>>
+           /\ UNCHANGED <<ver, added, nlate, full, buf, ci, ki, reads>>
 
 Next == SetParam \/ Model \/ ContribStart \/ ContribStep \/ ContribEnd \/ FullStart \/ FullStep \/ FullEnd
 Spec == Init /\ [][Next]_vars
@@ -130,6 +135,9 @@ Coverage == /\ (pc = "idle" /\ last = "contrib") => {x.r.c : x \in reads} = Cont
             /\ (pc = "idle" /\ last = "fullc") =>
                    \A c \in Contribs : \A k \in 1..NComp[c] :
                        \E x \in reads : x.r.c = c /\ x.want = k
-\* clouds first: the evaluation order does not depend on the insertion order
-OrderIndependent == \A i, j \in 1..Len(Built) : i < j => Order[Built[i]] <= Order[Built[j]]
+\* clouds first: for contributions added before build() the evaluation order does not depend on
+\* the insertion order.  (Contributions added later keep their place; the RESULT must not depend on
+\* that either -- optical depths add -- which is the acc-family invariant OrderIndependentUpToCutoff
+\* of MC_Transmission and is checked on the real model by the replay.)
+OrderIndependent == \A i, j \in 1..(Len(Built) - nlate) : i < j => Order[Built[i]] <= Order[Built[j]]
 =============================================================================
